@@ -214,22 +214,78 @@ let print_out (fl : flavour) (o : out) : string =
          | None -> ());
         Printf.sprintf " %s.htx=%s %s.key=%s %s.val=%s" nm (sum h) nm (sum k) nm (sum v)) l)
 
+(* ---- which paths of the model a history exercised (written to $VERIF_FEATURES, aggregated into the evidence) ---- *)
+let features : (string, int) Hashtbl.t = Hashtbl.create 32
+let feat name = Hashtbl.replace features name (1 + (try Hashtbl.find features name with Not_found -> 0))
+
+let position (prev, next) =
+  match (prev = N0, next = N0) with
+  | (true, true) -> "only" | (true, false) -> "first" | (false, true) -> "last" | (false, false) -> "middle"
+
+let observe_update (w : world) (w' : world) (m : n) (k : bytes) (is_put : bool) =
+  match store_at w m, store_at w' m with
+  | Some s, Some s' ->
+    let a = shape_of s and b = shape_of s' in
+    let before = find_at s k and after = find_at s' k in
+    let mv = int_of_n (moved a.sh_koffs b.sh_koffs) in
+    if is_put then begin
+      (match before, after with
+       | None, Some _ -> feat "put:new_key"
+       | Some (((o, p), nx), v), Some (((o', _), _), v') ->
+         feat ("put:overwrite_" ^ position (p, nx));
+         if v = v' then feat "put:value_in_place" else feat "put:value_moved";
+         if o <> o' then feat "put:key_record_moved"
+       | _ -> feat "put:other");
+      if mv >= 2 then feat (Printf.sprintf "put:cascade_moved_%s_records" (if mv >= 4 then "4+" else string_of_int mv))
+    end else begin
+      (match before with
+       | Some (((_, p), nx), _) -> feat ("del:present_" ^ position (p, nx))
+       | None -> feat "del:absent");
+      if mv >= 2 then feat (Printf.sprintf "del:cascade_moved_%s_records" (if mv >= 4 then "4+" else string_of_int (mv - 1)))
+    end;
+    if b.sh_kfend <> a.sh_kfend then feat "key_file:extended";
+    if b.sh_vfend <> a.sh_vfend then feat "val_file:extended";
+    if int_of_n b.sh_kfree < int_of_n a.sh_kfree then feat "key_file:free_slot_reused";
+    if int_of_n b.sh_vfree < int_of_n a.sh_vfree then feat "val_file:free_slot_reused";
+    if int_of_n b.sh_vfend >= 16384 && int_of_n a.sh_vfend < 16384 then feat "val_file:crossed_16KiB";
+    if int_of_n b.sh_kfend >= 16384 && int_of_n a.sh_kfend < 16384 then feat "key_file:crossed_16KiB";
+    if int_of_n b.sh_vfend >= 2097152 && int_of_n a.sh_vfend < 2097152 then feat "val_file:crossed_2MiB"
+  | _ -> ()
+
+let observe (w : world) (w' : world) (o : op) =
+  match o with
+  | OPut (m, k, _) -> observe_update w w' m k true
+  | ODel (m, k) -> observe_update w w' m k false
+  | OPutInt (m, x, _) -> observe_update w w' m (key_of_handle w m x) true
+  | ODelInt (m, x) -> observe_update w w' m (key_of_handle w m x) false
+  | OBulkPut _ | OPutIter _ -> feat "bulk:put"
+  | OBulkDel _ -> feat "bulk:delete"
+  | OMap _ -> feat "open_or_create"
+  | _ -> ()
+
 let run_ops file =
   let ic = open_in file in
   let w = ref world0 in
+  let watch = Sys.getenv_opt "VERIF_FEATURES" <> None in
   (try
      while true do
        let line = String.trim (input_line ic) in
        if line <> "" && line.[0] <> '#' then begin
          (match parse line with
-          | Op o -> let (w', r) = step !w o in w := w'; print_endline (print_out FIter r)
+          | Op o -> let (w', r) = step !w o in (if watch then (try observe !w w' o with _ -> ())); w := w'; print_endline (print_out FIter r)
           | Flavoured (o, f) -> let (w', r) = step !w o in w := w'; print_endline (print_out f r)
           | Skip name -> print_endline ("skip:" ^ name));
          Stdlib.flush stdout
        end
      done
    with End_of_file -> ());
-  close_in ic
+  close_in ic;
+  match Sys.getenv_opt "VERIF_FEATURES" with
+  | Some path ->
+    let oc = open_out path in
+    Hashtbl.iter (fun k v -> Printf.fprintf oc "%s %d\n" k v) features;
+    close_out oc
+  | None -> ()
 
 (* sizing digests: the same lines as `harness sizing-val` / `sizing-key-sweep` *)
 let sizing_val max =
